@@ -170,10 +170,17 @@ class PyVC(ExprMixin, CallMixin, StmtMixin, Engine):
             self.entry_env = env0
             info["pre_pc"] = list(st.pc)
             acc = Acc()
-            end = self.exec_block(fn.body, st.copy(), acc)
+            st_run = st.copy()
+            is_generator = any(isinstance(n, (ast.Yield, ast.YieldFrom)) for n in _own_nodes(fn))
+            if is_generator:
+                st_run.env["$yields"] = self.new_list(st_run, [], cls="list")
+                self.assumptions_used.add("A-generator: a generator is modelled as the list of the values it yields")
+            end = self.exec_block(fn.body, st_run, acc)
             outs = list(acc.returns)
             if end is not None:
                 outs.append((end, self.mk_none()))
+            if is_generator:
+                outs = [(s_, s_.env["$yields"]) for s_, _ in outs]
             if acc.breaks or acc.continues:
                 raise Undecided("break/continue outside loop")
             self.cur_fid = fid
@@ -334,6 +341,18 @@ class PyVC(ExprMixin, CallMixin, StmtMixin, Engine):
     # ------------------------------------------------------------------
     def axioms(self):
         return self.u.literal_axioms() + list(self.global_axioms)
+
+
+def _own_nodes(fn):
+    """AST nodes of a function body without the bodies of nested functions / lambdas / classes."""
+    stack = list(fn.body)
+    while stack:
+        n = stack.pop()
+        yield n
+        for ch in ast.iter_child_nodes(n):
+            if isinstance(ch, (ast.FunctionDef, ast.AsyncFunctionDef, ast.Lambda, ast.ClassDef)):
+                continue
+            stack.append(ch)
 
 
 # ---------------------------------------------------------------------------
